@@ -156,3 +156,21 @@ ReadRes.declare('rfail')
 ReadRes.declare('rdone', ('r_list', IdL), ('r_rest', IdL))
 ReadRes = ReadRes.create()
 RDR = ADT(ReadRes)
+
+
+# ---- python-side machine state (StatefulInterpreter.stack / memory: list[Pattern | Proved]) -------------------------------------------
+PTerm = z3.Datatype('PTerm')
+PTerm.declare('PyPat', ('pypat', PPat))
+PTerm.declare('PyPrf', ('pyprf', PPat))
+PTerm = PTerm.create()
+PTR = ADT(PTerm)
+PTL = z3.Datatype('PTL')
+PTL.declare('ptnil')
+PTL.declare('ptcons', ('pthd', PTerm), ('pttl', PTL))     # head = LAST element of the python list (append = cons)
+PTL = PTL.create()
+PTLs = ADT(PTL)
+PCL = z3.Datatype('PCL')                                   # list[Claim]: head = FIRST element
+PCL.declare('pcnil')
+PCL.declare('pccons', ('pchd', PPat), ('pctl', PCL))
+PCL = PCL.create()
+PCLs = ADT(PCL)
